@@ -15,3 +15,4 @@ import Gomjml.Props.C10
 #print axioms Gomjml.Props.C10.C10_length_sites
 #print axioms Gomjml.Props.C10.C10_horizontal_pair_is_css
 #print axioms Gomjml.Props.C10.C10_shorthand_spelling
+#print axioms Gomjml.Props.C10.C10_divider_percentage
